@@ -10,6 +10,8 @@
   C10.5  no single-use iterator (generator expression, map/filter/zip/itertools object, Iterator-typed parameter) is read
          more than once: a membership test or any() advances it, so what a later row / peak sees would depend on the
          rows / peaks looked at before - i.e. on the other molecules of the run
+  C10.6  what one query is aligned against does not depend on the other queries: every task handed to the parallel map is
+         (the coordinator's reference list as received, that one query) - nothing derived from the whole query list
 Declined: order-insensitivity of tie-breaking among equal scores; equality of restricted vs full runs.
 """
 from __future__ import annotations
@@ -41,10 +43,60 @@ def run(ck):
     n_g = groupby_inputs_sorted(ck, "C10.4", only_functions={"AlignmentResults.resolve",
                                                               "AlignmentResults.filterOutSubsequentAlignmentsForSingleQuery"})
     ck.floor("C10.4 groupby sites of the row grouping functions", n_g, 2)
+    per_query_tasks(ck)
     from ..rules.iters import run_iterator_rule
     n_b = run_iterator_rule(ck, "C10.5")
     ck.floor("C10.5 single-use iterators bound to a local name (repository-wide)", n_b, 6)
     ck.ok("C10.5", "repository", "src/, sv/", f"{n_b} single-use iterators bound to a name, each read once (cursor idiom next(it) excepted)")
+
+
+def per_query_tasks(ck):
+    """C10.6: tasks = [(referenceMaps, q) for q in queryMaps] with referenceMaps and queryMaps the parameters themselves"""
+    from ..rules.common import parallel_map_site
+    ck.clause("C10.6", "every parallel task is (all references as received, one query): nothing computed from the whole query list")
+    ctx = ck.ctx
+    fn, call, mapname, worker_lambda, worker = parallel_map_site(ctx)
+    params = [pp.name for pp in fn.call_params()]
+    if len(params) < 2:
+        raise AnalysisError(f"{fn.where}: execute(referenceMaps, queryMaps) expected")
+    refs, queries = V(params[0]), V(params[1])
+    n = 0
+    for pa in explore(ck, fn, unroll=(0, 1)):
+        for t, facts, node, kind in path_terms(pa):
+            for x in T.subterms(t):
+                if x[0] == "call" and x[1].split(".")[0] == "p_tqdm" and len(x[2]) >= 2:
+                    tasks = x[2][1]
+                    while tasks[0] == "call" and tasks[1] in ("list", "tuple", "iter") and len(tasks[2]) == 1:
+                        tasks = tasks[2][0]
+                    n += 1
+                    w = where(fn, node)
+                    if not (tasks[0] == "comp" and len(tasks[3]) == 1 and tasks[2][0] == "tuple" and len(tasks[2][1]) == 2):
+                        cpu_dep = any((y[0] == "attr" and y[2] == "numberOfCpus") or (y[0] == "call" and y[1].endswith("cpu_count"))
+                                      for y in T.subterms(tasks))
+                        if cpu_dep:
+                            ck.violation("C10.6", short(fn) + ":tasks:queries", w,
+                                         "the tasks are batches whose size is computed from the worker count: which queries are "
+                                         "aligned (an incomplete last batch, the remainder of a division) depends on --cpus and on how "
+                                         "many other queries there are", found=T.show(tasks)[:240],
+                                         required=f"[({params[0]}, q) for q in {params[1]}]")
+                            continue
+                        raise AnalysisError(f"{w}: task list of the parallel map is not a comprehension of (references, query) pairs: "
+                                            f"{T.show(tasks)[:160]}")
+                    it, ifs = tasks[3][0]
+                    r_t, q_t = tasks[2][1]
+                    ck.judge(it == queries and not ifs, "C10.6", short(fn) + ":tasks:queries", w,
+                             "one task per query of the list received (no query is left out or depends on its position in a batch)",
+                             found=T.show(it)[:120] + (" if " + "; ".join(T.show(c)[:60] for c in ifs) if ifs else ""),
+                             required=params[1])
+                    ck.judge(r_t == refs, "C10.6", short(fn) + ":tasks:references", w,
+                             "every query is aligned against the reference list as received: a list derived from the other queries "
+                             "(e.g. references filtered by the longest query) makes one query's record depend on the rest of the file",
+                             found=T.show(r_t)[:200], required=params[0])
+                    ck.judge(q_t[0] == "bv", "C10.6", short(fn) + ":tasks:query", w, "the second component of a task is that query",
+                             found=T.show(q_t)[:80])
+        if n:
+            break
+    ck.floor("C10.6 parallel map call with a task list", n, 1)
 
 
 # ---------------------------------------------------------------------------------------------------------- C10.1
@@ -237,6 +289,29 @@ def lookups(ck):
                 else:
                     raise AnalysisError(f"{w}: how the original query is found is not recognised: {T.show(e.term)[:160]}")
     ck.floor("C10.2 original-query lookups in getUnalignedFragments", judged, 1)
+    # the caller hands over the whole query list: a list pre-selected by the row's *position* (zip of rows and queries, an
+    # index) pairs rows with the wrong molecule as soon as one query has no first-pass row
+    sp = p.find_method("_MultiPassWorkflowCoordinator", "getSecondPassAlignmentRows")
+    prm = [pp.name for pp in sp.call_params()]
+    n_sites = 0
+    for pa in explore(ck, sp, unroll=(0, 1)):
+        for t, facts, node, kind in path_terms(pa):
+            for x in T.subterms(t):
+                got = None
+                if x[0] == "app" and x[1] == fn.qualname:
+                    got = dict(x[3]).get(fn.call_params()[0].name)
+                elif x[0] == "mcall" and x[2] == fn.name and x[3]:
+                    got = x[3][0]
+                if got is None:
+                    continue
+                n_sites += 1
+                whole = got[0] == "v" and got[1] in prm
+                ck.judge(whole, "C10.2", short(sp) + ":queries-argument", where(sp, node),
+                         "the second pass gives every row the whole query list to find its molecule in (by id)",
+                         found=T.show(got)[:160], required="the queryMaps parameter itself")
+        if n_sites:
+            break
+    ck.floor("C10.2 getUnalignedFragments call sites in the second pass", n_sites, 1)
     pair_parser_lookups(ck, "C10.2")
 
 
